@@ -28,12 +28,15 @@ const (
 	nLocMax   = maxBlocks * nOff
 )
 
-// Two blobs per block, back to back: [0,8) and the empty blob at 8 (a location of size zero is a legitimate
-// entry, not a free slot). The same (offset,size) pairs are used for every key, so equal locations under
-// different keys occur.
+// Two blobs per block, back to back: [0,W) and the empty blob at W (a location of size zero is a legitimate
+// entry, not a free slot), with W just above 4 GiB: offsets and sizes are 64-bit quantities (blocks may be larger
+// than 4 GiB), so a record array that keeps fewer bits returns a location that was never stored. The same
+// (offset,size) pairs are used for every key, so equal locations under different keys occur.
+const wide = int64(1)<<32 + 8
+
 var (
-	offBytes  = [nOff]int64{0, 8}
-	sizeBytes = [nOff]int64{8, 0}
+	offBytes  = [nOff]int64{0, wide}
+	sizeBytes = [nOff]int64{wide, 0}
 )
 
 func mkLoc(locIdx int) local.Location {
